@@ -7,6 +7,7 @@ package main
 import (
 	"bytes"
 	"context"
+	"strconv"
 	"encoding/json"
 	"fmt"
 	"os"
@@ -22,17 +23,20 @@ var replayMu sync.Mutex
 
 // writeOverlay writes the overlay JSON for `go test` and returns its path.
 func writeOverlay(files []harnessFile, pkgRel string, harnessNames []string) string {
-	var selfNames []string
+	var selfNames, diffNames []string
 	var hn []string
 	for _, n := range harnessNames {
 		if strings.HasPrefix(n, "VerifSelftest_") {
 			selfNames = append(selfNames, n)
+		} else if strings.HasPrefix(n, "VerifDiff_") {
+			diffNames = append(diffNames, n)
 		} else {
 			hn = append(hn, n)
 		}
 	}
 	harnessNames = hn
 	sort.Strings(selfNames)
+	sort.Strings(diffNames)
 	work := filepath.Join(verifDir, ".work")
 	os.MkdirAll(work, 0o755)
 	repl := map[string]string{}
@@ -56,6 +60,11 @@ func writeOverlay(files []harnessFile, pkgRel string, harnessNames []string) str
 		fmt.Fprintf(&sb, "\t\t%q: %s,\n", n, n)
 	}
 	sb.WriteString("\t} {\n\t\tif e := fn(); e != \"\" {\n\t\t\tt.Errorf(\"%s: %s\", name, e)\n\t\t}\n\t}\n}\n")
+	sb.WriteString("\nfunc TestVerifDiff(t *testing.T) {\n\tzzverif.Load()\n\tfor name, fn := range map[string]func() string{\n")
+	for _, n := range diffNames {
+		fmt.Fprintf(&sb, "\t\t%q: %s,\n", n, n)
+	}
+	sb.WriteString("\t} {\n\t\tfmt.Printf(\"VERIF-DIFF %s %q\\n\", name, fn())\n\t}\n}\n")
 	drv := filepath.Join(work, "driver_"+strings.ReplaceAll(pkgRel, "/", "_")+"_test.go")
 	os.WriteFile(drv, []byte(sb.String()), 0o644)
 	repl[filepath.Join(repoDir, pkgRel, "zz_verif_replay_test.go")] = drv
@@ -210,14 +219,19 @@ func harnessNamesIn(files []harnessFile, pkgRel string) []string {
 	return names
 }
 
-// selftest runs the native self-tests of every harness package that has some.
+// selftest runs the native self-tests of every harness package that has some,
+// and the concrete differential tests of the executor (VerifDiff_*).
 func selftest() int {
 	files := findHarnessFiles()
 	pkgs := map[string]bool{}
+	diffPkgs := map[string]bool{}
 	for _, f := range files {
 		src, _ := os.ReadFile(f.real)
 		if strings.Contains(string(src), "func VerifSelftest_") {
 			pkgs[f.pkgRel] = true
+		}
+		if strings.Contains(string(src), "func VerifDiff_") {
+			diffPkgs[f.pkgRel] = true
 		}
 	}
 	rc := 0
@@ -237,5 +251,88 @@ func selftest() int {
 			rc = 1
 		}
 	}
+	for p := range diffPkgs {
+		// native results
+		ov := writeOverlay(files, p, harnessNamesIn(files, p))
+		cmd := exec.Command("go", "test", "-v", "-vet=off", "-count=1", "-timeout", "600s", "-overlay", ov, "-run", "^TestVerifDiff$", "./"+p)
+		cmd.Dir = repoDir
+		cmd.Env = append(os.Environ(), "GOFLAGS=-mod=mod", "GOPROXY=off", "GOSUMDB=off", "GOTOOLCHAIN=local", "TZ=UTC")
+		out, err := cmd.CombinedOutput()
+		if err != nil {
+			fmt.Printf("SELFTEST-FAILED %s (native differential run): %v\n%s\n", p, err, tailOf(string(out), 1500))
+			rc = 1
+			continue
+		}
+		native := map[string]string{}
+		for _, l := range strings.Split(string(out), "\n") {
+			if strings.HasPrefix(l, "VERIF-DIFF ") {
+				parts := strings.SplitN(strings.TrimPrefix(l, "VERIF-DIFF "), " ", 2)
+				if len(parts) == 2 {
+					if u, err := strconv.Unquote(parts[1]); err == nil {
+						native[parts[0]] = u
+					}
+				}
+			}
+		}
+		// the same functions in the symbolic executor
+		ld := loadProgramFor([]string{p})
+		sh := NewShared(ld.prog)
+		e := &Explorer{sh: sh, pathTimeout: 120 * time.Second}
+		e.cond = sync.NewCond(&e.mu)
+		w := newWorker(0, sh, ld, e)
+		w.solver = NewSolver(8000)
+		w.xsolver = NewSolver(4000)
+		w.crossEvery = 97
+		e.workers = []*Worker{w}
+		names := make([]string, 0)
+		for n := range ld.harness {
+			if strings.HasPrefix(n, "VerifDiff_") {
+				names = append(names, n)
+			}
+		}
+		sort.Strings(names)
+		for _, n := range names {
+			got, kind := w.runForResult(ld.harness[n])
+			if kind != "pass" {
+				fmt.Printf("SELFTEST-FAILED %s: executor could not run it: %s %s\n", n, kind, got)
+				rc = 1
+				continue
+			}
+			if got != native[n] {
+				fmt.Printf("SELFTEST-FAILED %s: executor and native build disagree\n--- executor\n%s\n--- native\n%s\n", n, firstDiff(got, native[n]), "")
+				rc = 1
+			} else {
+				fmt.Printf("VERIF-SELFTEST %s: executor and native build agree on %d bytes of output\n", n, len(got))
+			}
+		}
+		w.solver.Close()
+		w.xsolver.Close()
+	}
 	return rc
+}
+
+func tailOf(s string, n int) string {
+	if len(s) > n {
+		return s[len(s)-n:]
+	}
+	return s
+}
+
+func firstDiff(a, b string) string {
+	k := 0
+	for k < len(a) && k < len(b) && a[k] == b[k] {
+		k++
+	}
+	lo := k - 80
+	if lo < 0 {
+		lo = 0
+	}
+	ha, hb := k+120, k+120
+	if ha > len(a) {
+		ha = len(a)
+	}
+	if hb > len(b) {
+		hb = len(b)
+	}
+	return fmt.Sprintf("first difference at byte %d:\n executor: …%q\n native:   …%q", k, a[lo:ha], b[lo:hb])
 }
